@@ -673,6 +673,7 @@ def describe(prop):
             f"statistical agreement by the DKW inequality at error probability {DELTA} per comparison (count reported as statistical_comparisons)",
             "the reference law is the object's own (conditional) cdf, as the property states; von Mises samples are compared modulo 2 pi",
             "conditional independence is probed by uniformity of the Rosenblatt image within 5 quantile bins of every earlier coordinate",
+            "every returned sample is overwritten by the harness after it was copied for the checks (the sample is the caller's); a generator state written back must replay the draw",
         ],
-        "probes": ["parameters-changed-between-draws"],
+        "probes": ["parameters-changed-between-draws", "tied-conditioning-values", "generator-state-written-back"],
     }
